@@ -15,6 +15,7 @@ import os
 from fractions import Fraction
 
 from harness import core, tables_io
+from harness import objs
 
 DEFAULT_VERSION = 33
 
@@ -240,7 +241,7 @@ def impl_decode(b, compiled=None):
     """-> ('ok', [ {d: labels, v: values, l: links} per subset ], nbytes) or (err_tag, None, None)"""
     from pybufrkit.decoder import Decoder
     try:
-        msg = Decoder(compiled_template_cache_max=compiled).process(b, wire_template_data=False)
+        msg = objs.decoder(compiled_template_cache_max=compiled).process(b, wire_template_data=False)
     except Exception as e:  # noqa
         return core.err_tag(e), None, None
     td = msg.template_data.value
@@ -256,7 +257,7 @@ def impl_encode(js, compiled=None):
     """-> ('ok', bytes, subsets-with-labels-and-links) or (err_tag, None, None)"""
     from pybufrkit.encoder import Encoder
     try:
-        msg = Encoder(compiled_template_cache_max=compiled).process(json.loads(json.dumps(js)), wire_template_data=False)
+        msg = objs.encoder(compiled_template_cache_max=compiled).process(json.loads(json.dumps(js)), wire_template_data=False)
     except Exception as e:  # noqa
         return core.err_tag(e), None, None
     td = msg.template_data.value
